@@ -352,8 +352,11 @@ def compare(x, accept, full=True):
     return None, first
 
 
-def run_history(cname, arr, mt, rows, ops, case):
-    """-> ("ok", final object, final state, steps) | ("end", steps) | ("skip",) | ("fail", key, msg)"""
+def run_history(cname, arr, mt, rows, ops, case, probe=True):
+    """-> ("ok", final object, final state, ambiguous) | ("end",) | ("skip",) | ("fail", key, msg)
+
+    A failure at step k > 1 is re-tried on a *new* object built from the spec rows before that step: when the same
+    failure shows there the history is irrelevant and the key carries no history; otherwise the key names it."""
     cls = "ArrayAlignment" if arr else "Alignment"
     st = {"rows": [list(r) for r in rows], "mt": mt, "arr": bool(arr)}
     try:
@@ -364,11 +367,22 @@ def run_history(cname, arr, mt, rows, ops, case):
     if bad:
         return ("fail", f"{cname}/{cls}/construct/{bad[0]}", f"{case}: {bad[1]}")
     prev = []
+    ambiguous = False
+
+    def fail(core, msg):
+        after = ""
+        if prev:
+            after = f" after {prev}"
+            if probe:
+                r = run_history(cname, st["arr"], st["mt"], st["rows"], [raw], case, probe=False)
+                if r[0] == "fail" and r[1] == f"{cname}/{cls}/{core}":
+                    after = ""
+        return ("fail", f"{cname}/{cls}/{core}{after}", msg)
+
     for raw in ops:
         cls = "ArrayAlignment" if st["arr"] else "Alignment"
         op = resolve(raw, st)
         kind = op_kind(op)
-        after = f" after {prev}" if prev else ""
         try:
             accept = spec_apply(st, op)
         except SpecSkip:
@@ -378,53 +392,49 @@ def run_history(cname, arr, mt, rows, ops, case):
         except Exception as e:
             if allowed_refusal(op, st, e):
                 return ("skip",)
-            return ("fail", f"{cname}/{cls}/{kind}/raises {type(e).__name__}{after}",
-                    f"{case} (op {op}): {type(e).__name__}: {str(e)[:200]}")
+            return fail(f"{kind}/raises {type(e).__name__}", f"{case} (op {op}): {type(e).__name__}: {str(e)[:200]}")
         # the receiver is unchanged
         _, bad = compare(x, [st], full=False)
         if bad:
-            return ("fail", f"{cname}/{cls}/{kind}/receiver-changed/{bad[0]}{after}", f"{case} (op {op}): {bad[1]}")
+            return fail(f"{kind}/receiver-changed/{bad[0]}", f"{case} (op {op}): {bad[1]}")
         if y is None or (isinstance(y, dict) and not y):
             # "can't construct empty alignment": acceptable only when the spec result has no rows or no columns
             if any(not a["rows"] or _len(a["rows"]) == 0 for a in accept):
-                return ("end", len(prev) + 1)
-            return ("fail", f"{cname}/{cls}/{kind}/returns-nothing{after}",
-                    f"{case} (op {op}): returned {y!r}, expected rows {accept[0]['rows']}")
+                return ("end",)
+            return fail(f"{kind}/returns-nothing",
+                        f"{case} (op {op}): returned {y!r}, expected rows {accept[0]['rows']}")
         if any(not a["rows"] for a in accept):
-            return ("fail", f"{cname}/{cls}/{kind}/rows-from-nothing{after}", f"{case} (op {op}): got {y!r}")
+            return fail(f"{kind}/rows-from-nothing", f"{case} (op {op}): got {y!r}")
         try:
             st2, bad = compare(y, accept)
         except Exception as e:
-            return ("fail", f"{cname}/{cls}/{kind}/result-unreadable {type(e).__name__}{after}",
-                    f"{case} (op {op}): reading the result raises {type(e).__name__}: {str(e)[:200]}")
+            return fail(f"{kind}/result-unreadable {type(e).__name__}",
+                        f"{case} (op {op}): reading the result raises {type(e).__name__}: {str(e)[:200]}")
         if bad:
-            return ("fail", f"{cname}/{cls}/{kind}/{bad[0]}{after}", f"{case} (op {op}): {bad[1]}")
+            return fail(f"{kind}/{bad[0]}", f"{case} (op {op}): {bad[1]}")
+        ambiguous = ambiguous or len(accept) > 1
         x, st = y, st2
         prev.append(kind)
-    return ("ok", x, st, len(prev))
+    return ("ok", x, st, ambiguous)
 
 
 def contract_history(cname):
     def contract(case):
-        mt, rows, ops = case
-        results = []
-        for arr in (False, True):
-            r = run_history(cname, arr, mt, rows, ops, case)
-            if r[0] == "fail":
-                return r
-            results.append(r)
-        if all(r[0] == "skip" for r in results):
-            return ("skip",)
-        oks = [r for r in results if r[0] == "ok"]
-        if len(oks) == 2:
+        arr, mt, rows, ops = case
+        r = run_history(cname, arr, mt, rows, ops, case)
+        if r[0] in ("fail", "skip"):
+            return r
+        if r[0] == "end":
+            return ("ok", False)
+        _, x, st, ambiguous = r
+        if ambiguous:
             # ArrayAlignment == Alignment: where the spec accepts several readings both classes must pick the same
-            (_, xa, sa, _), (_, xb, sb, _) = oks
-            if sa["rows"] != sb["rows"] or sa["mt"] != sb["mt"]:
-                kinds = [op_kind(o) for o in ops]
-                return ("fail", f"{cname}/classes-differ/{kinds}",
-                        f"{case}: Alignment gives {sa['rows']}, ArrayAlignment gives {sb['rows']}")
-        nontrivial = any(r[0] == "ok" and _len(r[2]["rows"]) > 0 for r in results)
-        return ("ok", nontrivial)
+            o = run_history(cname, not arr, mt, rows, ops, case)
+            if o[0] == "ok" and (o[2]["rows"] != st["rows"] or o[2]["mt"] != st["mt"]):
+                a, b = (o[2], st) if arr else (st, o[2])
+                return ("fail", f"{cname}/classes-differ/{[op_kind(q) for q in ops]}",
+                        f"{case}: Alignment gives {a['rows']}, ArrayAlignment gives {b['rows']}")
+        return ("ok", _len(st["rows"]) > 0)
     return contract
 
 
@@ -504,14 +514,16 @@ def gen_ops(tier, seed):
             ops = depth1_ops(L, nrows, mt, level)
             for rows in layouts(nrows, L, fill):
                 for op in ops:
-                    yield [mt, rows, [op]]
+                    for arr in (False, True):
+                        yield [arr, mt, rows, [op]]
     # beyond the frontier: seeded random alignments (incl. '?'), every non-slice op + a reduced slice set
     for i in range(120 if thorough else 8):
         mt = rnd.choice(["dna", "dna", "rna", "protein"])
         nrows, L = rnd.choice((2, 3, 4)), rnd.choice((5, 6, 7, 8))
         rows = random_rows(rnd, mt, nrows, L, qmark=(i % 3 == 0))
         for op in depth1_ops(L, nrows, mt, "few"):
-            yield [mt, rows, [op]]
+            for arr in (False, True):
+                yield [arr, mt, rows, [op]]
 
 
 CHAIN_BASES = [
@@ -547,17 +559,21 @@ def gen_chain(tier, seed):
     for mt, rows in bases:
         for op1 in CHAIN_OPS:
             for op2 in CHAIN_OPS:
-                yield [mt, rows, [op1, op2]]
+                for arr in (False, True):
+                    yield [arr, mt, rows, [op1, op2]]
     # depth 3 (thorough 3-4): seeded sample over all bases
     for _ in range(6000 if thorough else 250):
         mt, rows = rnd.choice(CHAIN_BASES)
         ops = [rnd.choice(CHAIN_OPS) for _ in range(rnd.choice((3, 4)) if thorough else 3)]
-        yield [mt, rows, ops]
+        for arr in (False, True):
+            yield [arr, mt, rows, ops]
     # beyond the frontier: longer random alignments, depth 2-3
     for i in range(1500 if thorough else 50):
         mt = rnd.choice(["dna", "dna", "rna", "protein"])
         rows = random_rows(rnd, mt, rnd.choice((2, 3, 4)), rnd.choice((7, 8, 9)), qmark=(i % 4 == 0))
-        yield [mt, rows, [rnd.choice(CHAIN_OPS) for _ in range(rnd.choice((2, 3)))]]
+        ops = [rnd.choice(CHAIN_OPS) for _ in range(rnd.choice((2, 3)))]
+        for arr in (False, True):
+            yield [arr, mt, rows, ops]
 
 
 # ------------------------------------------------------------------------------------------------ read-only methods
@@ -769,7 +785,7 @@ def contract_methods(case):
     answers = {}
     for cls in classes:
         arr = cls == "ArrayAlignment"
-        r = run_history("methods-view", arr, mt, rows, ops, case)
+        r = run_history("methods-view", arr, mt, rows, ops, case, probe=False)
         if r[0] != "ok":
             continue                      # histories that fail or end are reported by the ops / chain contracts
         x, st = r[1], r[2]
@@ -940,7 +956,7 @@ BOUNDED = {
                  "filtered (5 predicates x motif 1-2), get_degapped_relative_to each row, sample with given indices "
                  "(8 recipes), + (self, slice of self, fresh alignment with reordered names), to_type, to_rna, to_dna; "
                  "plus seeded random alignments 2-4 rows x length 5-8 over ACGT-NRY(?) with the reduced slice set",
-        "rule": "a case = (moltype, rows, [op]) run on Alignment and ArrayAlignment; non-trivial when a result has "
+        "rule": "a case = (class, moltype, rows, [op]); both classes are enumerated for every input; non-trivial when a result has "
                 "length > 0; distinct by hash of the case",
     },
     "chain": {
@@ -948,7 +964,8 @@ BOUNDED = {
         "bound": "histories of depth 2 exhaustive over 33 x 33 operations on 2 (thorough 8) fixed alignments of 2-3 "
                  "rows x length 5-6 (dna/rna/protein, incl. all-gap row, no-gap, '?'); depth 3 (thorough 3-4) seeded "
                  "sample; seeded random alignments 2-4 rows x length 7-9, depth 2-3",
-        "rule": "a case = (moltype, rows, op history) run from both start classes, checked after every step; "
+        "rule": "a case = (start class, moltype, rows, op history), both start classes enumerated, checked after every "
+                "step; where the spec accepts several readings the other class is run too and must agree; "
                 "non-trivial when the final result has length > 0; distinct by hash of the case",
     },
     "methods": {
